@@ -203,6 +203,7 @@ class Run:
         self.latency = plan.get("latency_ns", 1_000_001)
         self.sim.on_send = self.on_send
         self.sim.pre_send = self.pre_send
+        self.sim.recv_cost_ns = plan.get("recv_cost_ns", 0)
         self.cur_op = {}  # session idx -> [op id, requests sent within the op]
         self.key_of = {}  # (idx, serial) -> "opid:k"
         ov = plan.get("sleep_overshoot")
